@@ -7,6 +7,7 @@ separate / flattened / hierarchical return forms, with and without upstream sens
 is certified against the term-level model Model/PopModels.v assembled by harness/popspec.py.
 Direct checks: layout invariance (bit-identical results for the three layouts of the same values), lengths equal
 the reported counts.  Search: scipy.stats densities and Richardson finite differences."""
+import copy
 import math
 import random
 
@@ -97,7 +98,8 @@ def gen_case(rng):
                 X[0][d0] += 0.5
                 break
     return {'subs': subs, 'composed': composed, 'n_ids': n_ids, 'layout': layout, 'theta': theta, 'X': X,
-            'U': U if rng.random() < 0.7 else None, 'mismatch': mismatch, 'chis': gen_values.chis}
+            'U': U if rng.random() < 0.7 else None, 'mismatch': mismatch, 'chis': gen_values.chis,
+            'nest': popspec.gen_nest(rng, len(subs)) if composed else None}
 
 
 def layout_params(case, S, layout):
@@ -111,12 +113,45 @@ def layout_params(case, S, layout):
     return np.broadcast_to(mat, (case['n_ids'],) + mat.shape).copy()
 
 
-def run_chi(case, layout=None):
+def typed(a, typ):
+    """the same numbers as a float array, an integer array or nested lists of Python ints"""
+    if typ == 'float':
+        return a
+    assert np.array_equal(a, np.round(a))
+    return a.astype(np.int64) if typ == 'int-array' else a.astype(np.int64).tolist()
+
+
+def whole(case):
+    """the case with every number rounded to a whole one (scales at least 1, point masses kept satisfied), so that
+    the same values can be handed over with an integer type"""
+    S = [Sub(**d) for d in case['subs']]
+    c = dict(case)
+    r = lambda v: float(round(v))
+    c['chis'] = None if case.get('chis') is None else [[r(v) for v in row] for row in case['chis']]
+    c['U'] = None if case['U'] is None else [[r(v) for v in row] for row in case['U']]
+    theta, X = [r(v) for v in case['theta']], [[r(v) for v in row] for row in case['X']]
+    for s, (d0, p0, c0) in zip(S, popspec.slices(S)):
+        if not s.special():
+            for d in range(s.nd):
+                theta[p0 + s.nd + d] = max(1.0, theta[p0 + s.nd + d])
+        th = theta[p0:p0 + s.n_par()]
+        for i in range(case['n_ids']):
+            ch = c['chis'][i][c0:c0 + s.n_cov()] if c['chis'] else None
+            for d in range(s.nd):
+                if s.special():
+                    X[i][d0 + d] = s.par_value(th, s.het_row(i), d, i, ch)
+                elif s.centered:
+                    X[i][d0 + d] = max(1.0, X[i][d0 + d])
+    c['theta'], c['X'], c['mismatch'] = theta, X, False
+    return c
+
+
+def run_chi(case, layout=None, typ='float'):
     import chi
     S = [Sub(**d) for d in case['subs']]
     layout = layout or case['layout']
     if case['composed']:
-        m = chi.ComposedPopulationModel([s.build() for s in S])
+        m = popspec.compose(S, case.get('nest'))
     else:
         m = S[0].build()
     m.set_n_ids(case['n_ids'])
@@ -124,7 +159,12 @@ def run_chi(case, layout=None):
     X = np.array(case['X'], dtype=float)
     U = None if case['U'] is None else np.array(case['U'], dtype=float)
     before = (par.copy(), X.copy(), None if U is None else U.copy())
-    kw = {} if case.get('chis') is None else {'covariates': np.array(case['chis'], dtype=float)}
+    # (covariates and parameter matrices / tensors are documented as arrays; lists only where vectors are taken)
+    atyp = 'int-array' if typ == 'int-list' else typ
+    kw = {} if case.get('chis') is None else {'covariates': typed(np.array(case['chis'], dtype=float), atyp)}
+    if typ != 'float':
+        par, X = typed(par, typ if par.ndim == 1 else atyp), typed(X, typ)
+        before = (copy.deepcopy(par), copy.deepcopy(X), before[2])
     out = {'ll': float(m.compute_log_likelihood(par, X, **kw))}
     if layout != 'tensor' or S[0].kind != 'H' or True:
         try:
@@ -268,6 +308,34 @@ def ref_score(S, theta, X, chis=None):
     return float(tot)
 
 
+def type_problem(case):
+    """the values and sensitivities depend on the numbers handed over, not on the type they are stored with"""
+    wc = whole(case)
+    ref = run_chi(wc)
+    for typ in ('int-array', 'int-list'):
+        try:
+            other = run_chi(wc, typ=typ)
+        except (TypeError, AttributeError) as e:
+            if typ == 'int-list':
+                continue            # arrays are the documented type; a list may be refused, loudly
+            return 'whole-number inputs passed as %s: %s: %s' % (typ, type(e).__name__, e)
+        except Exception as e:
+            return 'whole-number inputs passed as %s: %s: %s' % (typ, type(e).__name__, e)
+        for what, a, b in [('log-likelihood', ref['ll'], other['ll']), ('individual parameters', ref['psi'], other['psi'])] + [
+                ('%s sensitivities' % k, ref['forms'][k], other['forms'][k]) for k in ref['forms']]:
+            fa = a if isinstance(a, str) else np.concatenate([np.ravel(np.asarray(x, dtype=float)) for x in (
+                a if isinstance(a, tuple) else (a,))])
+            fb = b if isinstance(b, str) else np.concatenate([np.ravel(np.asarray(x, dtype=float)) for x in (
+                b if isinstance(b, tuple) else (b,))])
+            same = (fa == fb) if isinstance(fa, str) or isinstance(fb, str) else (
+                fa.shape == fb.shape and np.allclose(fa, fb, rtol=1e-12, atol=1e-12, equal_nan=True))
+            if not same:
+                return 'whole-number inputs passed as %s: %s %r, passed as floats %r' % (typ, what, b, a)
+        if other.get('mutated'):
+            return 'an input array (%s) was modified' % typ
+    return None
+
+
 def oracle(case):
     import chi
     S = [Sub(**d) for d in case['subs']]
@@ -293,10 +361,13 @@ def oracle(case):
             return 'layout %s gives ll=%r reduce=%r psi=%r; layout %s gives ll=%r reduce=%r psi=%r' % (
                 case['layout'], res['ll'], res['forms']['reduce'], res['psi'], lay, other['ll'],
                 other['forms']['reduce'], other['psi'])
+    tp = type_problem(case)
+    if tp:
+        return tp
     if ref == -math.inf:
         return None
     # finite differences of score + <U, psi(bottom)> w.r.t. bottom values and population parameters
-    m = chi.ComposedPopulationModel([s.build() for s in S]) if case['composed'] else S[0].build()
+    m = popspec.compose(S, case.get('nest')) if case['composed'] else S[0].build()
     m.set_n_ids(case['n_ids'])
     theta0, X0 = np.array(case['theta'], dtype=float), np.array(case['X'], dtype=float)
     U = np.zeros_like(X0) if case['U'] is None else np.array(case['U'], dtype=float)
@@ -399,6 +470,7 @@ def run(ck):
                         sp = 'the parameter layout changes the result: %s gives %r, %s gives %r' % (
                             case['layout'], (res['ll'], res['forms']['reduce']), lay, (o['ll'], o['forms']['reduce']))
                         break
+            sp = sp or type_problem(case)
         except Exception as e:
             ck.violation(key_of(case, ''), 'chi raised %s: %s' % (type(e).__name__, e), case)
             continue
@@ -424,7 +496,8 @@ def run(ck):
     ck.cov['rule'] = ('single models (7 kinds incl. non-centred, n_dim 1-3) in flat / matrix / tensor layout and '
                       'compositions of 2-3 sub-models, 1-4 individuals, with (70%) or without upstream sensitivities, '
                       '8% unsatisfied point masses; log-likelihood, individual parameters and the separate / flattened '
-                      '/ hierarchical sensitivities are certified; layouts compared bit for bit; distinct = distinct case')
+                      '/ hierarchical sensitivities are certified; layouts compared bit for bit; every case repeated with whole '
+                      'numbers passed as floats, as an integer array and as lists of ints; distinct = distinct case')
     ck.log('certifying %d population-model cases' % len(cases))
     bad = ck.numeric('popmodels', HEADER, UNFOLD, cases, shard=4, integral=True)
     wrng = random.Random(ck.seed + 13)
